@@ -141,6 +141,20 @@ pub fn drive(args: &[String]) {
             }
         }
     }
+    // instructions with two strings in a row, every byte prefix of the file, each also followed by 1-3 zero bytes (a NUL
+    // inside a trailing partial word is not a string terminator the decoder may rely on)
+    {
+        let st = |s: &str| SOp { k: "LiteralString".into(), w: vec![], s: Some(s.as_bytes().to_vec()) };
+        let two = vec![
+            SInst { op: 71, rt: None, rid: None, ops: vec![SOp::one("IdRef", 1), SOp::one("Decoration", 5834), st("abcd"), st("efgh")] },
+            SInst { op: 7, rt: None, rid: Some(2), ops: vec![st("xyz")] },
+            SInst { op: 5, rt: None, rid: None, ops: vec![SOp::one("IdRef", 2), st("name")] }];
+        let tb = enc(&two);
+        for cut in 20..=tb.len() {
+            corpus.push((tb[..cut].to_vec(), "string-prefix"));
+            for z in 1..=3usize { let mut b = tb[..cut].to_vec(); b.extend(std::iter::repeat(0u8).take(z)); corpus.push((b, "string-prefix")); }
+        }
+    }
     // ids that are their own result type / cyclic type chains, then literals and switches typed by them
     {
         let one = |k: &str, w: u32| SOp::one(k, w);
@@ -204,7 +218,8 @@ pub fn drive(args: &[String]) {
             SInst { op: 54, rt: Some(1), rid: Some(2), ops: vec![SOp::one("FunctionControl", 0), SOp::one("IdRef", 3)] },
             SInst { op: 56, rt: None, rid: None, ops: vec![] }, SInst { op: 248, rt: None, rid: Some(4), ops: vec![] },
             SInst { op: 253, rt: None, rid: None, ops: vec![] }, SInst { op: 0, rt: None, rid: None, ops: vec![] },
-            SInst { op: 55, rt: Some(1), rid: Some(5), ops: vec![] }];
+            SInst { op: 55, rt: Some(1), rid: Some(5), ops: vec![] },
+            SInst { op: 317, rt: None, rid: None, ops: vec![] }];      // OpNoLine: legal anywhere, filed by position
         let nn = reps.len();
         for len in 1..=4usize {
             for code in 0..nn.pow(len as u32) {
